@@ -94,20 +94,30 @@ def annotate(uni, tree, clazz="Root"):
         if meta.text is not None:
             info["qtext"] = is_q(meta.text)
             info["padtext"] = paddable(meta.text) and meta.text.init and not node["c"]
+        assigned = set()  # like ElementNode.assigned: a non-list element field takes one child only
         for i, ch in enumerate(node["c"]):
-            child(ch, path + (i,), meta, None)
+            child(ch, path + (i,), meta, None, assigned)
 
-    def child(ch, path, meta, wrapper):
+    def child(ch, path, meta, wrapper, assigned):
         q = ch["q"]
         if wrapper is None and q in meta.wrappers:
             ann[path] = {"elem_only": True, "qattrs": set(), "qtext": False, "padattrs": set(), "padtext": False, "wrapper": True}
             for j, g in enumerate(ch["c"]):
-                child(g, path + (j,), meta, q)
+                child(g, path + (j,), meta, q, assigned)
             return
-        cands = [v for v in meta.find_children(q) if wrapper is None or v.wrapper_qname == wrapper]
+        cands = []
+        for v in meta.find_children(q):
+            if wrapper is not None and v.wrapper_qname != wrapper:
+                continue
+            unique = 0 if (not v.is_element or v.list_element) else v.index
+            if unique and unique in assigned:
+                continue
+            cands.append(v)
         if not cands:
             return opaque(ch, path)
         var = cands[0]
+        if var.is_element and not var.list_element:
+            assigned.add(var.index)
         try:
             if var.clazz:
                 return walk_el(ch, path, ctx.fetch(var.clazz, meta.namespace, xsi_of(ch)))
